@@ -90,6 +90,9 @@ fn my_tid() -> u64 {
 pub enum Family {
     OwnedPairs,
     OneWriter,
+    /// three mutating threads, each owning the pairs "around the ring" from its
+    /// own node (0: {0,1}; 1: {1,2}; 2: {2,0}): three-node lock cycles
+    Ring,
 }
 
 struct WorkerOut {
@@ -104,6 +107,17 @@ fn all_pairs(directed: bool) -> Vec<(K, K)> {
         vec![(0, 1), (1, 0), (1, 2), (2, 1), (0, 2), (2, 0), (0, 0), (1, 1), (2, 2)]
     } else {
         vec![(0, 1), (1, 2), (0, 2), (0, 0), (1, 1), (2, 2)]
+    }
+}
+
+fn ring_pairs(directed: bool, t: usize) -> Vec<(K, K)> {
+    let a = t as K;
+    let b = ((t + 1) % 3) as K;
+    if directed {
+        // own the ordered pair from the own node to the next one, and the own self-loop
+        vec![(a, b), (a, a)]
+    } else {
+        vec![(a, b)]
     }
 }
 
@@ -173,10 +187,12 @@ where
                 let mutator = match fam {
                     Family::OwnedPairs => t < 2,
                     Family::OneWriter => t == 0,
+                    Family::Ring => true,
                 };
                 let pairs: Vec<(K, K)> = match fam {
                     Family::OwnedPairs => owned_pairs(F::DIRECTED, t, (seed % 2) as usize),
                     Family::OneWriter => all_pairs(F::DIRECTED),
+                    Family::Ring => ring_pairs(F::DIRECTED, t),
                 };
                 out.live = vec![vec![]; pairs.len()];
                 let mut next_id = (t as u32 + 1) * 1_000_000;
@@ -200,13 +216,13 @@ where
                                     let had = !out.live[pi].is_empty();
                                     match F::try_connect(&nodes[a as usize], &nodes[b as usize], Eid { id: next_id, val: 0 }) {
                                         Ok(()) => {
-                                            if had && fam == Family::OwnedPairs {
+                                            if had && fam != Family::OneWriter {
                                                 out.msgs.push(format!("try_connect({},{}) succeeded although the owner has {} live edge(s) on the pair", a, b, out.live[pi].len()));
                                             }
                                             out.live[pi].push(next_id);
                                         }
                                         Err(_) => {
-                                            if !had && fam == Family::OwnedPairs {
+                                            if !had && fam != Family::OneWriter {
                                                 out.msgs.push(format!("try_connect({},{}) failed although the owner has no live edge on the pair", a, b));
                                             }
                                         }
@@ -277,6 +293,7 @@ where
                     let mutator = match fam {
                         Family::OwnedPairs => t < 2,
                         Family::OneWriter => t == 0,
+                        Family::Ring => true,
                     };
                     if !mutator {
                         continue;
@@ -284,6 +301,7 @@ where
                     let pairs: Vec<(K, K)> = match fam {
                         Family::OwnedPairs => owned_pairs(F::DIRECTED, t, (seed % 2) as usize),
                         Family::OneWriter => all_pairs(F::DIRECTED),
+                        Family::Ring => ring_pairs(F::DIRECTED, t),
                     };
                     for (pi, p) in pairs.iter().enumerate() {
                         for id in &out.live[pi] {
@@ -367,8 +385,8 @@ where
         });
     }
     for it in 0..iterations {
-        for fam in [Family::OwnedPairs, Family::OneWriter] {
-            let s = seed.wrapping_mul(1_000_003).wrapping_add(it * 2 + fam as u64);
+        for fam in [Family::OwnedPairs, Family::OneWriter, Family::Ring] {
+            let s = seed.wrapping_mul(1_000_003).wrapping_add(it * 3 + fam as u64);
             if let Ok(mut d) = cur_desc.lock() {
                 *d = format!("family {:?} seed {} ops {}", fam, s, ops);
             }
